@@ -207,15 +207,25 @@ def oracle(seed, tier):
                 caps = [rng.choice([1, 2, 5, chunk, thr, 3 * MiB]) for _ in range(rng.randrange(1, 8))]
                 src = ShortReader(data, caps)
             want = data[start:]
+            # the size may also come from a subscriber (then the manager does not measure the stream itself)
+            provided = kind != 'path' and rng.random() < 0.35
+            subs = []
+            if provided:
+                from s3transfer.subscribers import BaseSubscriber
+
+                class ProvideSize(BaseSubscriber):
+                    def on_queued(self, future, **kw):
+                        future.meta.provide_transfer_size(len(want))
+                subs = [ProvideSize()]
             wit = {'source': kind, 'size': size, 'start': start, 'threshold': thr, 'chunksize': chunk,
-                   'body_protocol': proto, 'checksum_algorithm': alg}
+                   'body_protocol': proto, 'checksum_algorithm': alg, 'size_provided_by_subscriber': provided}
             if kind == 'nonseekable-short':
                 wit['short_read_caps'] = src.script[:]
             err = None
             try:
                 with TransferManager(fake, TransferConfig(multipart_threshold=thr, multipart_chunksize=chunk),
                                      executor_cls=NonThreadedExecutor) as tm:
-                    tm.upload(src, 'b', 'k', extra_args=extra).result()
+                    tm.upload(src, 'b', 'k', extra_args=extra, subscribers=subs).result()
             except Exception as e:   # noqa
                 err = e
             res.evaluations += 1
